@@ -33,13 +33,15 @@ ASpec == AInit /\ [][ANext]_avars
 
 Exps == {t + LeaseDuration : t \in Clocks}
 LeaseSets == SUBSET [rs : RS, cs : CS, exp : Exps]
-OperatorsAgree ==
+SmallSets == {X \in LeaseSets : Cardinality(X) <= 2}      \* pairs of lease sets: up to two leases each
+\* constant-level; guarded so that TLC evaluates it in the initial state only
+OperatorsAgree == (granted = {} /\ clock = 0) =>
   /\ \A LL \in LeaseSets : \A rs \in RS :
        /\ Core!HasLease(LL, rs) = HasLease(LL, rs)
        /\ \A e \in Exps : /\ Core!RenewIn(LL, rs, e) = RenewIn(LL, rs, e)
                           /\ \A cs \in CS : /\ Core!AddOrRenew(LL, rs, cs, e) = AddOrRenew(LL, rs, cs, e)
                                             /\ Core!Lease(rs, cs, e) = Lease(rs, cs, e)
-  /\ \A L1 \in LeaseSets : \A L2 \in LeaseSets : Core!LeasesMonotone(L1, L2) = LeasesMonotone(L1, L2)
+  /\ \A L1 \in SmallSets : \A L2 \in SmallSets : Core!LeasesMonotone(L1, L2) = LeasesMonotone(L1, L2)
 
 StepsAreCoreSteps == [][Core!Next]_avars
 CoreIndInv == Core!IndInv
